@@ -32,6 +32,8 @@ use crate::common::{guarded, CaseWriter, Opts, Rng};
 mod c17_multi;
 #[path = "c17_block.rs"]
 mod c17_block;
+#[path = "c17_same.rs"]
+mod c17_same;
 
 fn cps(s: &str) -> Vec<u32> {
 	s.chars().map(|c| c as u32).collect()
@@ -592,9 +594,13 @@ fn run_loc(opts: &Opts) {
 	// traces over several files: planted multi-file programs and synthetic multi-source traces
 	c17_multi::run_multi(&mut w, &mut rng, &opts.out, opts.thorough(), &mut hist);
 	c17_multi::run_synth(&mut w, &mut rng, opts.thorough(), &mut hist);
+	// traces over several sources that share the DISPLAYED name (own PRNG stream: the cases above keep their seeds)
+	let mut rng_same = Rng::new(opts.seed ^ 0x5A3E_17);
+	c17_same::run_same_synth(&mut w, &mut rng_same, opts.thorough(), &mut hist);
+	c17_same::run_same_programs(&mut w, &mut rng_same, &opts.out, opts.thorough(), &mut hist);
 	let meta = json!({
 		"engine":"c17","cases":w.n,"texts":n_text + fixed.len(),"planted":n_plant,"hist":hist,
-		"rule":"texts over {ASCII, tab, LF, CRLF, lone CR, 2/3/4-byte chars, combining mark, U+2028, U+0085} up to 120 chars: map_source_locations at every character boundary singly and in tuples of 2..5 (unsorted, repeated, off-boundary, past the end) vs model and reference; 8 synthetic trace frames per text rendered by CompactFormat vs print model and reference start; programs with error / assert / object assert / failing call (callee + call site) / syntax error / std.trace / field error planted after comment, blank, CRLF, multi-byte filler lines and after ASCII or non-ASCII text on the same line; multi-file programs (main + 1-2 imported libraries, main as file or as virtual snippet) where the failing construct in the library and the call/import in the importer are padded to IDENTICAL start/end byte offsets on different lines/columns: every frame's line/column vs the reference of ITS OWN file through CompactFormat, JsFormat (column convention: finding) and HiDocFormat (observed highlight); synthetic traces over 2-3 virtual sources with shared spans: whole CompactFormat output vs the writeTrace model; ImportSyntaxError at arbitrary offsets vs the syntaxErrorLoc model"
+		"rule":"texts over {ASCII, tab, LF, CRLF, lone CR, 2/3/4-byte chars, combining mark, U+2028, U+0085} up to 120 chars: map_source_locations at every character boundary singly and in tuples of 2..5 (unsorted, repeated, off-boundary, past the end) vs model and reference; 8 synthetic trace frames per text rendered by CompactFormat vs print model and reference start; programs with error / assert / object assert / failing call (callee + call site) / syntax error / std.trace / field error planted after comment, blank, CRLF, multi-byte filler lines and after ASCII or non-ASCII text on the same line; multi-file programs (main + 1-2 imported libraries, main as file or as virtual snippet) where the failing construct in the library and the call/import in the importer are padded to IDENTICAL start/end byte offsets on different lines/columns: every frame's line/column vs the reference of ITS OWN file through CompactFormat, JsFormat (column convention: finding) and HiDocFormat (observed highlight); synthetic traces over 2-3 virtual sources with shared spans: whole CompactFormat output vs the writeTrace model; SAME DISPLAYED NAME: synthetic traces over 2-4 sources that are all displayed alike (virtual:S, fifo(<inline code>), files of one base name in different directories, one path with several texts) under PathResolver FileName / Absolute / Relative, texts related by heads of equal byte length (same offsets, other line/column) or of equal line structure (same line/column, other offsets), repeated frames: whole CompactFormat output vs writeTrace, every start vs the reference of its own text, JsFormat; real programs (ext-code chains, functions through tla-codes, tla+ext, two snippets under one name, import and call chains through equally named files) in-process under each resolver through CompactFormat, JsFormat and HiDocFormat (observed); ImportSyntaxError at arbitrary offsets vs the syntaxErrorLoc model"
 	});
 	w.finish(meta, &opts.out);
 }
@@ -910,8 +916,11 @@ fn run_cli(opts: &Opts) {
 			Err(e) => w.case(c17_multi::mstart_op(&m, "cli.multi"), json!({"spawn": e.to_string()})),
 		}
 	}
+	// several sources under one displayed name (ext-code / tla-code snippets, equally named files)
+	let mut rng_same = Rng::new(opts.seed ^ 0x5A3E_C1);
+	c17_same::run_same_cli(&mut w, &mut rng_same, &bin, &dir, opts.thorough(), &mut hist);
 	let meta = json!({"engine":"c17cli","cases":w.n,"hist":hist,
-		"rule":"multi-file programs (main + 1-2 libraries, frames padded to identical byte offsets in different files) through the binary: every frame vs the reference of its own file; planted programs (same generator as c17) written to a file and run through the jrsonnet binary: line of `TRACE: file:line` (StdTracePrinter) and start line/column of the named frame in the stderr trace vs the reference"});
+		"rule":"programs whose frames lie in several sources displayed under ONE name (std.extVar chains over 2-4 --ext-code snippets, functions passed between 2-3 --tla-code snippets, tla+ext mixes, import/call chains through files all called lib.libsonnet; main as -e or file, relative or absolute; compact and explaining formats), planted spans with identical byte offsets on different lines/columns, or the same line/column at different offsets: every frame vs the reference of its own text; multi-file programs (main + 1-2 libraries, frames padded to identical byte offsets in different files) through the binary: every frame vs the reference of its own file; planted programs (same generator as c17) written to a file and run through the jrsonnet binary: line of `TRACE: file:line` (StdTracePrinter) and start line/column of the named frame in the stderr trace vs the reference"});
 	w.finish(meta, &opts.out);
 }
 
